@@ -1,13 +1,14 @@
 """C01 -- scheduler core (work in progress: metadata filled in below)."""
-from props.common import contract_tasks, lemma_tasks, TRUSTED_CORE
+from props.common import other_tasks, contract_tasks, lemma_tasks, TRUSTED_CORE
 
 PROPERTY = "C01"
 
 
 def tasks(tier):
-    return (contract_tasks("contracts.scheduler", "C01", tier=tier) + contract_tasks("contracts.sim_process", "C01", tier=tier)
+    return ((contract_tasks("contracts.scheduler", "C01", tier=tier) + contract_tasks("contracts.sim_process", "C01", tier=tier)
             + contract_tasks("contracts.progress", "C01", tier=tier) + lemma_tasks("contracts.progress", "C01")
             + contract_tasks("contracts.connect", "C01", tier=tier))
+            + other_tasks("contracts.closure", "C01", "bounded"))
 
 
 TRUSTED_BASE = TRUSTED_CORE
